@@ -135,6 +135,14 @@ def r2_positions(chk: Check):
 
 
 def r3_generated_once(chk: Check):
+    # the sub-configurations of a declared default are not shared between instances (they would keep the paths of the first task) (= C01.R6)
+    from .c01 import r6_defaults_not_aliased
+
+    r6_defaults_not_aliased(chk)
+    _r3_generated_once(chk)
+
+
+def _r3_generated_once(chk: Check):
     tree = chk.tree
     n = 0
     sp0 = tree.func("core.objects", "ConfigInformation.seal.Sealer.postprocess")
@@ -204,6 +212,10 @@ def r5_final_job_directory(chk: Check):
     from .c02 import r2_table
 
     r2_table(chk, direction="emitted", only_atom="generated")
+    # ... and a defaulted sub-configuration does not enter the identifier when its paths are generated (= C02.R10)
+    from .c02 import r10_default_by_signature
+
+    r10_default_by_signature(chk)
 
 
 
